@@ -76,8 +76,30 @@ def expected_dec(x):
     return None
 
 
+def tie_rep_codes(ctx):
+    """function-level tie of Model/Rep.lean (theorem rep_lockstep, ll/ml_code_roundtrip) to ZSTD_finalizeOffBase, ZSTD_updateRep, ZSTD_LLcode, ZSTD_MLcode"""
+    rng = ctx.rng
+    hx = build.link("zvh_cwksp", ["zvh_cwksp.c"], "plain", exclude=("zstd_compress.c",))
+    lines = []
+    for i in range(3000 if ctx.quick() else 60000):
+        reps = [rng.choice([1, 2, 3, 4, 8, 9, rng.randint(1, 1 << 20)]) for _ in range(3)]
+        raw = rng.choice(reps + [reps[0] - 1 if reps[0] > 1 else 5, reps[0] + 1, rng.randint(1, 1 << 27)])
+        lines.append("rep %d %d %d %d %d" % (reps[0], reps[1], reps[2], raw, rng.randint(0, 1)))
+    for i in range(2000 if ctx.quick() else 40000):
+        ll = rng.choice([rng.randint(0, 70), rng.randint(0, 131071), (1 << rng.randint(0, 16)) + rng.choice([-1, 0, 1])])
+        ml = rng.choice([rng.randint(0, 140), rng.randint(0, 131071), (1 << rng.randint(0, 16)) + rng.choice([-1, 0, 1])])
+        lines.append("codes %d %d" % (max(0, ll), max(0, ml)))
+    co, mo, rc, err = zv.differential(hx, "mem", lines, timeout=900)
+    for ln, a, b in zip(lines, co, mo):
+        if a != b:
+            ctx.violation("repeat-offset / length-code model differs from the compressor's functions: %s -> code %s, model %s" % (ln, a, b), dict(kind="tie-rep", op=ln, code=a, model=b), no_input=True)
+            break
+    return len(lines)
+
+
 def correspondence(ctx):
     exe = frames.harness()
+    ntie = tie_rep_codes(ctx)
     n = 1500 if ctx.quick() else 30000
     maxsize = 262144 if ctx.quick() else 4 << 20
     cases = run(ctx, gen_cases(ctx, n, maxsize), exe)
